@@ -282,6 +282,64 @@ theorem sender_thread {net : Net} {c : Cert} (h : TreeNet net c) {m : Nat} (hm :
   | sender mo _ ho hok => rw [hout] at ho; cases ho; exact hok
   | sink _ ho _ _ => rw [hout] at ho; cases ho
 
+theorem tot_pos {net : Net} {c : Cert} (h : TreeNet net c) {m : Nat} (hm : m < net.mbs.length) : 1 ≤ tot net c m := by
+  obtain ⟨th, hth, _, hok⟩ := sender_thread h hm
+  unfold tot; simp only [hth]
+  have : Instr.close m ∈ th.body := by rw [hok.body]; simp
+  have := List.count_pos_iff.mpr this
+  unfold countOut; omega
+
+/-- a valid subscription is read by a thread that has the `read` in its body -/
+theorem reader_has_read {net : Net} {c : Cert} (h : TreeNet net c) {m k : Nat} {sp : MBSpec} (hsp : net.mbs[m]? = some sp)
+    (hk : k < sp.drive.length) : ∃ th, net.threads[c.reader m k]? = some th ∧ Instr.read m k ∈ th.body := by
+  have hm : m < net.mbs.length := (List.getElem?_eq_some_iff.mp hsp).1
+  obtain ⟨sp', hsp', _, _, _, _, _, hr⟩ := h.mailbox hm
+  rw [hsp] at hsp'; cases hsp'
+  obtain ⟨hlt, hcnt, _, _⟩ := hr k hk
+  have hth : net.threads[c.reader m k]? = some (net.threads[c.reader m k]'hlt) := List.getElem?_eq_getElem hlt
+  refine ⟨_, hth, ?_⟩
+  simp only [hth] at hcnt
+  have := tot_pos h hm
+  exact List.count_pos_iff.mp (by omega)
+
+/-- the reader of a subscription of `m` is not the sender of `m` -/
+theorem reader_not_sender {net : Net} {c : Cert} (h : TreeNet net c) {m k : Nat} {sp : MBSpec} (hsp : net.mbs[m]? = some sp)
+    (hk : k < sp.drive.length) : c.reader m k ≠ c.sender m := by
+  intro heq
+  have hm : m < net.mbs.length := (List.getElem?_eq_some_iff.mp hsp).1
+  obtain ⟨th, hth, hmem⟩ := reader_has_read h hsp hk
+  obtain ⟨th', hth', _, hok⟩ := sender_thread h hm
+  rw [heq, hth'] at hth; cases hth
+  rcases hok.mem hmem with h1 | h1
+  · cases h1
+  · simp only [senderInstrOk] at h1; omega
+
+/-- a thread reads at most one subscriber slot of a mailbox -/
+theorem reader_inj {net : Net} {c : Cert} (h : TreeNet net c) {m k k2 : Nat} {sp : MBSpec} (hsp : net.mbs[m]? = some sp)
+    (hk : k < sp.drive.length) (hk2 : k2 < sp.drive.length) (heq : c.reader m k = c.reader m k2) : k = k2 := by
+  have hm : m < net.mbs.length := (List.getElem?_eq_some_iff.mp hsp).1
+  obtain ⟨sp', hsp', _, _, _, _, _, hr⟩ := h.mailbox hm
+  rw [hsp] at hsp'; cases hsp'
+  obtain ⟨_, _, h1, h2⟩ := hr k hk
+  obtain ⟨_, _, h1', h2'⟩ := hr k2 hk2
+  by_cases hp : k = c.pipe m
+  · by_cases hp2 : k2 = c.pipe m
+    · rw [hp, hp2]
+    · obtain ⟨ha, hb, _⟩ := h1' hp2
+      rcases h2 hp with hc | hc
+      · rw [heq] at hc; exact absurd hc ha
+      · rw [heq, hb] at hc; simp at hc
+  · by_cases hp2 : k2 = c.pipe m
+    · obtain ⟨ha, hb, _⟩ := h1 hp
+      rcases h2' hp2 with hc | hc
+      · rw [← heq] at hc; exact absurd hc ha
+      · rw [← heq, hb] at hc; simp at hc
+    · obtain ⟨_, _, hs⟩ := h1 hp
+      obtain ⟨_, _, hs'⟩ := h1' hp2
+      rw [heq, hs'] at hs
+      simp only [Prod.mk.injEq] at hs
+      exact hs.2.symm
+
 /-! ### the certificate of a wired net, computed -/
 
 def Instr.outMb : Instr → Option Nat
